@@ -315,7 +315,12 @@ class Gen:
         if c == 7:
             return self.node("if", c=self.int_expr(scope, 2), t=[self.node("print", v="t")], f=[], inline=False, **{"else": False})
         if c == 9 and self.features.get("ext2"):
-            k = r.randint(0, 4)
+            k = r.randint(0, 5)
+            if k == 5:
+                # an assignment whose target is not a variable but the name of a function (the program's own,
+                # a prelude function, a built-in): "not currently bound", like any other unbound target
+                names = sorted(self.fun_sigs) + ["println", "max", "string_repr", "tr" if self.has_tracer else "range"]
+                return self.node("set", n=r.choice(names), e=self.int_expr(scope, 2))
             if k == 0 and self.meth_sigs:
                 m = r.choice(sorted(self.meth_sigs))
                 tt, pt, _ = self.meth_sigs[m]
@@ -742,7 +747,7 @@ def render_stmt_inline(w, e, ind):
         w.w(f"let {e['n']} = ")
         render_expr(w, e["e"], ind)
     elif k == "letd":
-        w.w("let (" + ", ".join(e["ns"]) + ") = ")
+        w.w("let (" + ", ".join(e["ns"]) + e.get("pad", "") + ") = ")       # pad: layout variation set by a check (C21)
         render_expr(w, e["e"], ind)
     elif k == "ford":
         w.w("for (" + ", ".join(e["ns"]) + ") in ")
